@@ -259,11 +259,13 @@ func (m *BaseUndoLogManager) Undo(ctx context.Context, dbType types.DBType, xid 
 		return err
 	}
 	defer func() {
-		if err != nil {
-			if err = tx.Rollback(); err != nil {
-				log.Errorf("rollback fail, xid: %s, branchID:%s err:%v", xid, branchID, err)
-				return
-			}
+		// always end the local transaction and give the connection back; the result of the
+		// undo must not be overwritten here. Rollback after a successful Commit is a no-op.
+		if rbErr := tx.Rollback(); rbErr != nil && rbErr != sql.ErrTxDone {
+			log.Errorf("rollback fail, xid: %s, branchID:%s err:%v", xid, branchID, rbErr)
+		}
+		if closeErr := conn.Close(); closeErr != nil {
+			log.Errorf("conn close fail, xid: %s, branchID:%s err:%v", xid, branchID, closeErr)
 		}
 	}()
 
@@ -273,9 +275,8 @@ func (m *BaseUndoLogManager) Undo(ctx context.Context, dbType types.DBType, xid 
 		return err
 	}
 	defer func() {
-		if err = stmt.Close(); err != nil {
-			log.Errorf("stmt close fail, xid: %s, branchID:%s err:%v", xid, branchID, err)
-			return
+		if closeErr := stmt.Close(); closeErr != nil {
+			log.Errorf("stmt close fail, xid: %s, branchID:%s err:%v", xid, branchID, closeErr)
 		}
 	}()
 
@@ -285,9 +286,8 @@ func (m *BaseUndoLogManager) Undo(ctx context.Context, dbType types.DBType, xid 
 		return err
 	}
 	defer func() {
-		if err = rows.Close(); err != nil {
-			log.Errorf("rows close fail, xid: %s, branchID:%s err:%v", xid, branchID, err)
-			return
+		if closeErr := rows.Close(); closeErr != nil {
+			log.Errorf("rows close fail, xid: %s, branchID:%s err:%v", xid, branchID, closeErr)
 		}
 	}()
 
@@ -375,7 +375,7 @@ func (m *BaseUndoLogManager) Undo(ctx context.Context, dbType types.DBType, xid 
 
 	if err = tx.Commit(); err != nil {
 		log.Errorf("[Undo] execute on fail, err: %v", err)
-		return nil
+		return err
 	}
 	return nil
 }
